@@ -10,6 +10,7 @@ element values of the property: scalars of every kind, tuples, and sets of scala
 -/
 import MechVerif.Lemmas.SetElem
 import MechVerif.Gen.SetKernels
+import MechVerif.Gen.OperandArms
 namespace MechVerif.SetM
 
 variable {α : Type} {κ : Type} [DecidableEq κ] {eq : α → α → Bool} {key : α → κ}
@@ -386,3 +387,18 @@ example : kernelOk ("difference", .call .difference .a2 .a1) = false := by decid
 example : kernelOk ("proper_superset", .and (.call .isSuperset .a1 .a2) (.lenGt .a1 .a2)) = true := by decide
 
 end MechVerif.SetIR
+
+/-! ### operands that are references to variables (the fallback arms of the twelve compilers, as written) -/
+namespace MechVerif.RangeArms
+
+/-- **Whichever of its two operands is a variable, a set operator's kernel receives the operands' values in the order
+    written** (`Gen/OperandArms.lean` is regenerated from machines/set/src on every run; `C14_fallback_arms_ok` is its
+    `decide` proof). -/
+theorem C14_operand_forms_reach_the_kernel {α : Type} (f : String × Nat × List Arm)
+    (hf : f ∈ Gen.OperandArms.setForms) (a b : Opnd α) (href : a.isRef = true ∨ b.isRef = true) :
+    dispatch f.2.2 [a, b] = some [a.value, b.value] := by
+  simp only [Gen.OperandArms.setForms, List.mem_cons, List.mem_nil_iff, or_false] at hf
+  rcases hf with rfl | rfl | rfl | rfl | rfl | rfl | rfl | rfl | rfl | rfl | rfl | rfl <;>
+    cases a <;> cases b <;> simp [Opnd.isRef] at href <;> rfl
+
+end MechVerif.RangeArms
